@@ -129,6 +129,11 @@ type simWatcher struct {
 func (s *simWatcher) AddWaitForConfirmationTx(swapID, txID string, vout, startingHeight, paymentWindow uint32, _ []byte) {
 	s.c.w.gate(s.n, "watch.conf")
 	s.mu.Lock()
+	for _, r := range s.conf {
+		if r.swapID == swapID {
+			r.done = true
+		}
+	}
 	s.conf = append(s.conf, &confReg{swapID: swapID, txID: txID, vout: vout, start: startingHeight, window: paymentWindow})
 	s.mu.Unlock()
 	s.c.w.Emit("watch.conf", Ev{"id": swapID, "chain": s.c.Name, "tx": txID, "vout": vout, "start": startingHeight, "window": paymentWindow})
@@ -139,6 +144,11 @@ func (s *simWatcher) AddWaitForConfirmationTx(swapID, txID string, vout, startin
 func (s *simWatcher) AddWaitForCsvTx(swapID, txID string, vout, startingHeight, csv uint32, _ []byte) {
 	s.c.w.gate(s.n, "watch.csv")
 	s.mu.Lock()
+	for _, r := range s.csv { // registrations are keyed by swap id (as in the real watchers): a new one replaces the old
+		if r.swapID == swapID {
+			r.done = true
+		}
+	}
 	s.csv = append(s.csv, &csvReg{swapID: swapID, txID: txID, vout: vout, start: startingHeight, csv: csv})
 	s.mu.Unlock()
 	s.c.w.Emit("watch.csv", Ev{"id": swapID, "chain": s.c.Name, "tx": txID, "vout": vout, "start": startingHeight, "csv": csv})
@@ -156,6 +166,15 @@ func (s *simWatcher) GetBlockHeight() (uint32, error) {
 	o := s.c.w.gate(s.n, "chain.height")
 	if o != "" {
 		return 0, errors.New("sim: blockchain rpc unavailable")
+	}
+	// The claim-payment retry loop is bounded by wall-clock time in production
+	// (120 s, one attempt per 10 s). The harness runs it with an unbounded time
+	// budget and ends it deterministically after the same number of attempts.
+	s.c.w.mu.Lock()
+	attempts := s.c.w.gateOcc["ln.payclaim"]
+	s.c.w.mu.Unlock()
+	if attempts >= 12 {
+		return 0, errors.New("sim: claim payment retry time is over")
 	}
 	h := s.c.tip()
 	s.c.w.after(s.n, "chain.height")
